@@ -16,6 +16,7 @@ int main(void) {
   P(DOFF_N0_U4); P(DOFF_C0_U4); P(DOFF_METABLK_U4); P(DOFF_METABLKN_U4); P(DOFF_END);
   P(IWDB_VNUM64_KEYS); P(IWDB_COMPOUND_KEYS); P(IWDB_REALNUM_KEYS);
   P(IWKV_NO_OVERWRITE); P(IWKV_VAL_INCREMENT); P(IWKV_SYNC);
+  P(IWFSM_MAGICK); P(IWKV_MAGIC); P(IWDB_MAGIC); P(IWFSM_CUSTOM_HDR_DATA_OFFSET); P(SBLK_PERSISTENT_FLAGS); P(SBLK_FULL_LKEY);
   P(IWKV_ERROR_NOTFOUND); P(IWKV_ERROR_KEY_EXISTS); P(IWKV_ERROR_MAXKVSZ); P(IWKV_ERROR_CORRUPTED);
   P(IWKV_ERROR_DUP_VALUE_SIZE); P(IWKV_ERROR_KEY_NUM_VALUE_SIZE); P(IWKV_ERROR_INCOMPATIBLE_DB_MODE);
   P(IWKV_ERROR_VALUE_CANNOT_BE_INCREMENTED);
